@@ -228,6 +228,12 @@ func (i *interpreter) doAssert(fr *frame, c value, label string) {
 			if r.Status == "unsat" {
 				panic(abort{"infeasible", "assert on infeasible path"})
 			}
+			if r.Status != "sat" {
+				// the path condition could not be decided: inconclusive, never a violation
+				ob.Result = "unknown"
+				i.res.Obligations = append(i.res.Obligations, ob)
+				panic(abort{"unknown-path", "feasibility of a path reaching a failing assertion is undecided: " + label})
+			}
 			m = r.Model
 		}
 		i.res.Obligations = append(i.res.Obligations, ob)
